@@ -41,6 +41,7 @@ func runC02(r *Report, p *Program) {
 	c02R2(h)
 	c02R3(h)
 	c02R4(h)
+	c02R5(h)
 }
 
 func c02R1(h H) {
